@@ -122,7 +122,7 @@ def gen_case(rng, i, nprocs, tag="c02"):
     p.close()
     p.emit("*", "barrier")
     p.emit(0, "snapshot", path="s:@OUT@/%s.nc" % tag, tag="final")
-    p.emit("*", "balance")
+    p.emit("*", "balance", final=1)
     return Case("%s_%05d" % (tag, i), nprocs, p.s.lines, meta={"expect": p.expect, "fm": p.fm, "feat": p.feat, "nel": p.nelems_checked, "nposted": p.nb_posted})
 
 
